@@ -31,3 +31,186 @@ def cube(k, offset=0):
 
 def hex6(rgb):
     return "#%02x%02x%02x" % tuple(rgb)
+
+
+# ---------------------------------------------------------------------------------------------
+# Pair lattice for the optimiser properties (C01-C04, C16, C06 mapping, C17): backgrounds and
+# threshold-adjacent texts derived deterministically from the oracles (never from the library).
+# ---------------------------------------------------------------------------------------------
+import math  # noqa: E402
+
+from mc.oracle import oklab as _ok  # noqa: E402
+from mc.oracle import wcag as _wc  # noqa: E402
+
+THRESHOLDS = (3.0, 4.5, 7.0)
+
+
+def _hue_tint(h_deg, L, C):
+    return _ok.oklch_to_rgb((L, C, h_deg))
+
+
+def backgrounds(tier, phase):
+    """White, black, greys on both sides of OKLCH L = 0.5 (8-bit grey 99/100 straddles it), light / mid / dark
+    tints of rotating hues, saturated primaries."""
+    rot = 22.5 * phase
+    g = phase
+    bgs = [WHITE, BLACK, (99 - g, 99 - g, 99 - g), (100 + g, 100 + g, 100 + g), (238 - g, 238 - g, 238 - g), (30 + g, 30 + g, 30 + g)]
+    hues = [(30 + rot) % 360, (150 + rot) % 360, (270 + rot) % 360]
+    for h in hues:
+        bgs.append(_hue_tint(h, 0.92, 0.05))   # light tint
+        bgs.append(_hue_tint(h, 0.30, 0.08))   # dark tint
+    if tier == "quick":
+        bgs += [(115, 83, 215)]                # mid-tone, chromatic, L > 0.5: exercises the direction rule
+        return _dedupe(bgs[:6] + bgs[6:9] + bgs[11:])
+    for h in hues + [(90 + rot) % 360, (210 + rot) % 360, (330 + rot) % 360]:
+        bgs.append(_hue_tint(h, 0.55, 0.12))   # mid tints just above L = 0.5
+        bgs.append(_hue_tint(h, 0.47, 0.10))   # and just below
+    bgs += [(255, 0, 0), (0, 128, 0), (0, 0, 255), (255, 255, 0), (0, 255, 255), (255, 0, 255), (115, 83, 215),
+            (90, 90, 90), (110, 110, 110), (128, 128, 128), (200, 200, 200)]
+    return _dedupe(bgs)
+
+
+def _dedupe(xs):
+    seen, out = set(), []
+    for x in xs:
+        x = tuple(x)
+        if x not in seen:
+            seen.add(x)
+            out.append(x)
+    return out
+
+
+def lightness_line(C, H, n=1024):
+    """Distinct 8-bit colours on the OKLCH lightness line (C, H), ordered by L, via the oracle conversion."""
+    out, last = [], None
+    for i in range(n + 1):
+        c = _ok.oklch_to_rgb((i / n, C, H))
+        if c != last:
+            out.append(c)
+            last = c
+    return out
+
+
+def texts_for(bg, tier, phase):
+    """TEXT(bg): for each hue/chroma seed and each threshold and each side of the background, colours of the
+    seed's lightness line in [0.80T, T) (subsampled), the colours adjacent to T on both sides, and far-below
+    colours (ratio 1.0 = bg, ~1.2, ~2).  Returns an ordered list of distinct colours with a tag."""
+    rot = 22.5 * phase
+    if tier == "quick":
+        seeds = [(0.0, 0.0)] + [(0.10, (h + rot) % 360) for h in (25, 145, 265)] + [(0.19, (85 + rot) % 360)]
+        nband, nadj = 2, 1
+    else:
+        seeds = [(0.0, 0.0)] + [(c, (h + rot) % 360) for h in (25, 70, 115, 160, 205, 250, 295, 340) for c in (0.06, 0.16)]
+        nband, nadj = 6, 2
+    lb = _wc.luminance(bg)
+    out, seen = [], set()
+
+    def add(c, tag):
+        if c not in seen:
+            seen.add(c)
+            out.append((c, tag))
+
+    add(tuple(bg), "equal_to_bg")
+    for C, H in seeds:
+        line = lightness_line(C, H, 512 if tier == "quick" else 1024)
+        rated = [(c, _wc.ratio(c, bg), _wc.luminance(c) >= lb) for c in line]
+        for lighter in (False, True):
+            side = [(c, r) for c, r, lt in rated if lt == lighter]
+            if not side:
+                continue
+            # order by increasing contrast
+            side.sort(key=lambda cr: cr[1])
+            for T in THRESHOLDS:
+                below = [cr for cr in side if 0.80 * T <= cr[1] < T]
+                above = [cr for cr in side if cr[1] >= T]
+                if below:
+                    step = max(1, len(below) // nband)
+                    for c, _ in below[::step][:nband]:
+                        add(c, "band_%g" % T)
+                    for c, _ in below[-nadj:]:
+                        add(c, "just_below_%g" % T)
+                for c, _ in above[:nadj]:
+                    add(c, "just_above_%g" % T)
+            for target in (1.2, 2.0):
+                cand = [cr for cr in side if cr[1] >= target]
+                if cand:
+                    add(cand[0][0], "far_below")
+    return out
+
+
+def pair_lattice(tier, phase):
+    """[(text, bg, tag)] over all backgrounds of the tier."""
+    out = []
+    for bg in backgrounds(tier, phase):
+        for t, tag in texts_for(bg, tier, phase):
+            out.append((t, bg, tag))
+    return out
+
+
+# ---------------------------------------------------------------------------------------------
+# SPELL(rgb): every accepted spelling that denotes rgb exactly, with the documented output format.
+# ---------------------------------------------------------------------------------------------
+_REV_NAMED = {}
+for _k, _v in NAMED_LIST:
+    _REV_NAMED.setdefault(_v, _k)
+
+
+def _half_blend_fg(rgb, bg, num, den):
+    """fg such that alpha=num/den blend over bg is exactly rgb (integers), or None."""
+    fg = []
+    for t, b in zip(rgb, bg):
+        # t = a*f + (1-a)*b  ->  f = (t*den - (den-num)*b) / num
+        x = t * den - (den - num) * b
+        if x % num:
+            return None
+        f = x // num
+        if not 0 <= f <= 255:
+            return None
+        fg.append(f)
+    return tuple(fg)
+
+
+def spellings(rgb, bg):
+    """[(label, value, documented output format)] - all denote exactly `rgb` when composited over `bg`."""
+    r, g, b = rgb
+    h = "%02x%02x%02x" % rgb
+    out = [("hex6", "#" + h, "hex"), ("HEX6", "#" + h.upper(), "hex"), ("barehex6", h, "hex")]
+    if h[0] == h[1] and h[2] == h[3] and h[4] == h[5]:
+        out += [("hex3", "#" + h[0] + h[2] + h[4], "hex"), ("barehex3", h[0] + h[2] + h[4], "hex")]
+    out += [("rgb()", "rgb(%d, %d, %d)" % rgb, "rgb"), ("RGB() spaced", " RGB( %d ,%d,\t%d )" % rgb, "rgb")]
+    if all(c % 51 == 0 for c in rgb):
+        out.append(("rgb(%)", "rgb(%d%%, %d%%, %d%%)" % tuple(c * 100 // 255 for c in rgb), "rgb"))
+    if rgb in _REV_NAMED:
+        out += [("keyword", _REV_NAMED[rgb], "hex"), ("Keyword", _REV_NAMED[rgb].title(), "hex")]
+    out += [("tuple", (r, g, b), "rgb_tuple"), ("list", [r, g, b], "rgb_tuple")]
+    out += [("rgba() a=1", "rgba(%d, %d, %d, 1)" % rgb, "hex"), ("RGBA tuple a=1", (r, g, b, 1.0), "hex")]
+    for num, den, txt in ((1, 2, "0.5"), (1, 4, "0.25"), (3, 4, "0.75")):
+        fg = _half_blend_fg(rgb, bg, num, den)
+        if fg is not None and fg != rgb:
+            out += [("rgba() a=%s" % txt, "rgba(%d, %d, %d, %s)" % (fg + (txt,)), "hex"),
+                    ("RGBA tuple a=%s" % txt, fg + (num / den,), "hex"),
+                    ("RGBA list a=%s" % txt, list(fg) + [num / den], "hex")]
+            break
+    return out
+
+
+def hsl_seed(rgb):
+    """An hsl() string with integer components near rgb, and the colour it denotes exactly (None on ties)."""
+    from mc.oracle import css_color
+    import colorsys
+
+    hh, ll, ss = colorsys.rgb_to_hls(*(c / 255.0 for c in rgb))
+    s = "hsl(%d, %d%%, %d%%)" % (round(hh * 360) % 360, round(ss * 100), round(ll * 100))
+    t = css_color.read_unique(s)
+    if t is None:
+        return None
+    h_, s_, l_ = round(hh * 360) % 360, round(ss * 100), round(ll * 100)
+    return t, [("hsl()", s, "hsl"), ("HSL() spaced", "HSL( %d ,%d%% , %d%% )" % (h_, s_, l_), "hsl"),
+               ("hsla() a=1", "hsla(%d, %d%%, %d%%, 1)" % (h_, s_, l_), "hex")]
+
+
+def bg_spellings(bg):
+    out = [("tuple", tuple(bg)), ("hex6", hex6(bg)), ("rgb()", "rgb(%d, %d, %d)" % tuple(bg)), ("rgba() a=1", "rgba(%d, %d, %d, 1)" % tuple(bg))]
+    if tuple(bg) in _REV_NAMED:
+        out.append(("keyword", _REV_NAMED[tuple(bg)]))
+    return out
